@@ -28,17 +28,17 @@ open PdsVerif.Model.Alias.Cls
 ```
 R                      (registered: A, then B; A1 then A2 under A; A11 under A1)
 ├── A   {a, x}
-│   ├── A1  {x}
-│   │   └── A11 {deep, a}
-│   └── A2  {a}
-└── B   {b, x}
+│   ├── A1  {s, x, y}
+│   │   └── A11 {a, deep}
+│   └── A2  {a, s}
+└── B   {b, x, y}
 ```
 -/
 def A11 : Cls := .mk ⟨5, "A11", true, ["a", "deep"]⟩ []
-def A1 : Cls := .mk ⟨3, "A1", true, ["x"]⟩ [A11]
-def A2 : Cls := .mk ⟨4, "A2", true, ["a"]⟩ []
+def A1 : Cls := .mk ⟨3, "A1", true, ["s", "x", "y"]⟩ [A11]
+def A2 : Cls := .mk ⟨4, "A2", true, ["a", "s"]⟩ []
 def A : Cls := .mk ⟨1, "A", true, ["a", "x"]⟩ [A1, A2]
-def B : Cls := .mk ⟨2, "B", true, ["b", "x"]⟩ []
+def B : Cls := .mk ⟨2, "B", true, ["b", "x", "y"]⟩ []
 def demo : Cls := .mk ⟨0, "R", false, []⟩ [A, B]
 
 example : demo.ids.Nodup := by decide
@@ -137,6 +137,8 @@ theorem known_alias_resolves (root : Cls) (hn : root.ids.Nodup) (a : String) (c 
       rw [List.find?_eq_none] at hnone
       exact hnone c ((mem_order_iff c root).2 hc) (by simpa using ha)
 
+example : A11 ∈ demo.classes ∧ "deep" ∈ A11.aliases := by decide
+
 /-! ### shared aliases: who wins -/
 
 /-- A class standing later in the search order than another carrier of the alias is never returned. -/
@@ -165,11 +167,11 @@ theorem before_total (root x y : Cls) (hx : x ∈ root.classes) (hy : y ∈ root
   rw [hlr] at hy'
   rcases List.mem_append.1 hy' with h | h
   · obtain ⟨u, v, huv⟩ := List.append_of_mem h
-    exact Or.inr ⟨u, v, r, by rw [hlr, huv]; simp⟩
+    exact Or.inr ⟨u, v, r, by simp [hlr, huv]⟩
   · rcases List.mem_cons.1 h with h | h
     · exact absurd h.symm hne
     · obtain ⟨u, v, huv⟩ := List.append_of_mem h
-      exact Or.inl ⟨l, u, v, by rw [hlr, huv]; simp⟩
+      exact Or.inl ⟨l, u, v, by simp [hlr, huv]⟩
 
 /-- **Two classes of the family share an alias** (and nobody else carries it): the one searched first is
 built.  Together with `subclass_before_ancestor` / `later_sibling_before` this says which one that is. -/
@@ -185,6 +187,11 @@ theorem shared_alias_first_wins (root x y : Cls) (hn : root.ids.Nodup) (a : Stri
     exact absurd hc' (before_wins root c' y hn a ⟨l, m, r, hlr⟩ hy)
   · subst h
     exact hc'
+
+-- two classes that are neither siblings nor related by descent share `y`; nobody else carries it
+example : Before demo B A1 ∧ "y" ∈ B.aliases ∧ "y" ∈ A1.aliases
+    ∧ (∀ c ∈ demo.classes, "y" ∈ c.aliases → c = A1 ∨ c = B) ∧ resolve demo "y" = .ok B :=
+  ⟨⟨[], [A2, A11], [A, demo], by decide⟩, by decide, by decide, by decide, by decide⟩
 
 /-- Descendants come before their ancestors: a subclass shadows an alias of the class it derives from. -/
 theorem subclass_before_ancestor (root x y : Cls) (hx : x ∈ root.classes) (hy : y ∈ x.classes)
@@ -219,11 +226,12 @@ theorem last_registered_wins (root p c1 c2 : Cls) (A B C : List Cls) (hn : root.
   shared_alias_first_wins root c1 c2 hn a
     (before_of_later_sibling hp hsub (self_mem_classes c1) (self_mem_classes c2)) h2 honly
 
-example : demo ∈ demo.classes ∧ demo.subclasses = [] ++ A :: [] ++ B :: [] ∧ "b" ∈ B.aliases
-    ∧ (∀ c ∈ demo.classes, "b" ∈ c.aliases → c = A ∨ c = B) := by decide
--- siblings below the root, with an unrelated carrier elsewhere excluded by `honly`:
-example : A ∈ demo.classes ∧ A.subclasses = [] ++ A1 :: [] ++ A2 :: [] ∧ "a" ∈ A2.aliases
-    ∧ resolve A "a" = .ok A2 ∧ resolve A "a" ≠ .ok A11 := by decide
+-- siblings two levels below the root sharing `s`, nobody else carrying it:
+example : A ∈ demo.classes ∧ A.subclasses = [] ++ A1 :: [] ++ A2 :: [] ∧ "s" ∈ A1.aliases ∧ "s" ∈ A2.aliases
+    ∧ (∀ c ∈ demo.classes, "s" ∈ c.aliases → c = A1 ∨ c = A2) ∧ resolve demo "s" = .ok A2 := by decide
+-- `earlier_sibling_never_wins`: `x` is carried by A, A1 (below A) and by the later sibling B of A
+example : demo ∈ demo.classes ∧ demo.subclasses = [] ++ A :: [] ++ B :: [] ∧ A1 ∈ A.classes ∧ B ∈ B.classes
+    ∧ "x" ∈ B.aliases ∧ "x" ∈ A1.aliases := by decide
 
 /-! ## The live registry (generated) -/
 
@@ -348,14 +356,17 @@ theorem fromArg_missing_key (fac : Cls) (m : Mapping) (h0 : m.lookup "alias" = n
 
 example : (fromArg demo (.map [("k", .str "v")])).1 = .error .keyError := by decide
 
-/-- the keyword arguments are exactly the other entries of the mapping (keys, values and order). -/
-theorem fromArg_kwargs (fac : Cls) (m : Mapping) (s : String) (c : Cls) (kw : Mapping)
+/-- Success of the mapping branch, characterised: the alias came from `'alias'`, or from `'name'` with no
+`'alias'` present; it is a string that resolves to the class built; and the keyword arguments are exactly the
+other entries of the mapping (keys, values and order). -/
+theorem fromArg_map_ok (fac : Cls) (m : Mapping) (c : Cls) (kw : Mapping)
     (h : (fromArg fac (.map m)).1 = .ok (.construct c kw)) :
-    (kw = m.filter (fun e => e.1 != "alias") ∧ m.lookup "alias" = some (.str s) → resolve fac s = .ok c) ∧
-    (kw = m.filter (fun e => e.1 != "alias") ∨ kw = m.filter (fun e => e.1 != "name")) := by
-  cases h0 : m.lookup "alias" with
-  | some v =>
-    rw [fromArg_alias_over_name fac m v h0] at h
+    ∃ key s, (key = "alias" ∨ (key = "name" ∧ m.lookup "alias" = none)) ∧ m.lookup key = some (.str s) ∧
+      resolve fac s = .ok c ∧ kw = m.filter (fun e => e.1 != key) := by
+  have key_case : ∀ (key : String) (v : Val), m.lookup key = some v →
+      fromAlias fac v (m.filter (fun e => e.1 != key)) = .ok (.construct c kw) →
+      ∃ s, m.lookup key = some (.str s) ∧ resolve fac s = .ok c ∧ kw = m.filter (fun e => e.1 != key) := by
+    intro key v hv h
     cases v with
     | str s' =>
       simp only [fromAlias] at h
@@ -364,29 +375,21 @@ theorem fromArg_kwargs (fac : Cls) (m : Mapping) (s : String) (c : Cls) (kw : Ma
       | ok c' =>
         rw [hr] at h
         simp only [Except.map, Except.ok.injEq, Out.construct.injEq] at h
-        refine ⟨?_, Or.inl h.2.symm⟩
-        rintro ⟨_, hs⟩
-        cases hs
-        rw [hr, h.1]
+        exact ⟨s', hv, by rw [hr, h.1], h.2.symm⟩
     | hashable _ => cases h
     | unhashable _ => cases h
-  | none =>
-    cases h1 : m.lookup "name" with
-    | none => rw [fromArg_missing_key fac m h0 h1] at h; cases h
-    | some v =>
-      rw [fromArg_name_fallback fac m v h0 h1] at h
-      refine ⟨by rintro ⟨_, hs⟩; cases hs, ?_⟩
-      cases v with
-      | str s' =>
-        simp only [fromAlias] at h
-        cases hr : resolve fac s' with
-        | error e => rw [hr] at h; cases h
-        | ok c' =>
-          rw [hr] at h
-          simp only [Except.map, Except.ok.injEq, Out.construct.injEq] at h
-          exact Or.inr h.2.symm
-      | hashable _ => cases h
-      | unhashable _ => cases h
+  obtain h0 | ⟨v, h0⟩ := Option.eq_none_or_eq_some (m.lookup "alias")
+  · obtain h1 | ⟨v, h1⟩ := Option.eq_none_or_eq_some (m.lookup "name")
+    · rw [fromArg_missing_key fac m h0 h1] at h; cases h
+    · rw [fromArg_name_fallback fac m v h0 h1] at h
+      obtain ⟨s, h1', h2, h3⟩ := key_case "name" v h1 h
+      exact ⟨"name", s, Or.inr ⟨rfl, h0⟩, h1', h2, h3⟩
+  · rw [fromArg_alias_over_name fac m v h0] at h
+    obtain ⟨s, h1, h2, h3⟩ := key_case "alias" v h0 h
+    exact ⟨"alias", s, Or.inl rfl, h1, h2, h3⟩
+
+example : (fromArg demo (.map [("k", .hashable "1"), ("name", .str "y")])).1
+    = .ok (.construct B [("k", .hashable "1")]) := by decide
 
 /-- an alias value that is not a string: hashable ⇒ never found (`ValueError`); unhashable ⇒ the membership
 test itself raises `TypeError`. -/
